@@ -73,6 +73,7 @@ type Observers struct {
 	// and by SaveVersion.
 	NoStepWorkingHash bool
 	Light    bool // cheap per-step subset (hash + working reads) for profiles that run a heavier check elsewhere
+	Hybrid   bool // C16/C13: independent reader of a legacy + new-format (hybrid) store vs the reference trees
 }
 
 type World struct {
@@ -978,6 +979,19 @@ func (w *World) Observe() (v *Violation) {
 	if w.Obs.Reads || w.Obs.Hash || w.Obs.Versions || w.Obs.Proofs || w.Obs.Fast {
 		if v := w.checkVersions(w.Tree, ""); v != nil {
 			return v
+		}
+	}
+	if w.Obs.Hybrid {
+		st, aerr := auditHybrid(w.rawDump(), w.Vers)
+		if aerr != nil {
+			return w.viol("hybrid."+aerr.Kind, "%s", aerr.Msg)
+		}
+		w.Cnt["hybrid_legacy_nodes_read"] += st.LegacyNodes
+		w.Cnt["hybrid_new_nodes_read"] += st.NewNodes
+		for m := 1; m <= 3; m++ {
+			if st.Mode[m] > 0 {
+				w.Labels[fmt.Sprintf("hybrid_mode%d_on_disk", m)] = true
+			}
 		}
 	}
 	if w.Obs.Audit || w.Obs.Fields {
